@@ -104,7 +104,8 @@ def run_pool(ctx, module, prop):
         scs = poolscen.scenarios(3, (1, 2, 3), ncancel=2) + [s for s in poolscen.scenarios(4, (1, 2), ncancel=1, time_limits=False, extras=False) if len(s["tasks"]) == 4]
         bound = 2
     # server-mode (pipelined) variants of a slice of the scenarios
-    srv = [dict(s, via="server") for s in scs if len(s["tasks"]) <= 2 or (quick is False and len(s["tasks"]) == 3 and s["cores"] == 1)]
+    # (Scheduler.shutdown is an operation of the API; a shutdown racing with enqueue requests still in a connection's buffer is not a scenario)
+    srv = [dict(s, via="server") for s in scs if (len(s["tasks"]) <= 2 or (quick is False and len(s["tasks"]) == 3 and s["cores"] == 1)) and ("shutdown",) not in [tuple(o) for o in s["ops"]]]
     scs = scs + srv
     # thorough: 4-task scenarios at bound 1 only (cost)
     small = [s for s in scs if len(s["tasks"]) <= 3]
